@@ -186,3 +186,29 @@ def replay(path):
         sys.exit(1)
     print("replay: key %s no longer fails (%d other fails)" % (r["key"], len(res.fails)))
     sys.exit(1 if res.fails else 0)
+
+
+def simple_check(pid, tier, level, srcs, variants, rule, assumptions, configs=None, extra_cov=None,
+                 wraps=(), extra_flags=(), extra_libs=(), timeout=None, stat_max=()):
+    """Build harness `srcs` against each variant, run once per (variant, cfg), aggregate, finish."""
+    from vf import build
+    t0 = time.time()
+    res = Result()
+    name = "h_" + pid.lower()
+    ran = []
+    for v in variants:
+        exe = os.path.join(build.build(v), name)
+        build.link_harness(v, exe, [os.path.join(VERIF, "harness", s) if not s.startswith("/") else s for s in srcs],
+                           wraps=wraps, extra_flags=extra_flags, extra_libs=extra_libs)
+        for cfg in (configs(v) if configs else [""]):
+            env = {"VERIF_TIER": tier}
+            if cfg:
+                env["SODIUM_VERIF_CPU_DISABLE"] = cfg
+            res.merge(run([exe], env=env, label="%s-%s-%s" % (pid.lower(), v, cfg or "all"), timeout=timeout,
+                          stat_max=stat_max))
+            ran.append("%s[%s]" % (v, "-" + cfg if cfg else "all"))
+    cov = {"evaluations": res.stat("evaluations"), "distinct_nontrivial": res.stat("nontrivial"),
+           "rule": rule, "exhaustive": True, "builds_x_configs": ran}
+    if extra_cov:
+        cov.update(extra_cov(res) if callable(extra_cov) else extra_cov)
+    finish(pid, tier, level, res, cov, assumptions, t0)
